@@ -3,6 +3,7 @@ package interp
 // Intrinsics for cosmos-sdk / protobuf helpers.
 
 import (
+	"crypto/sha256"
 	"fmt"
 	"go/types"
 	"os"
@@ -159,5 +160,17 @@ func init() {
 		t := fr.i.prog.ImportedPackage("github.com/evmos/ethermint/x/evm/types").Type("MsgEthereumTxResponse").Type()
 		v := *fr.i.structField(t, (*p).(structure), "VmError")
 		return strLen(v) > 0
+	}
+}
+
+func init() {
+	// authtypes.NewModuleAddress(name) = first 20 bytes of sha256(name)
+	externals["github.com/cosmos/cosmos-sdk/x/auth/types.NewModuleAddress"] = func(fr *frame, args []value) value {
+		name, ok := args[0].(string)
+		if !ok {
+			panic(engineError{"NewModuleAddress of symbolic name"})
+		}
+		h := sha256.Sum256([]byte(name))
+		return bytesToElems(h[:20])
 	}
 }
